@@ -10,6 +10,10 @@ case kinds:
   {"k": "fhist", "default": lvl, "ops": [["set", ns, lvl] | ["clear"] | ["q", ns] | ["f", lvl|None, ns], ...]}
       a HISTORY of calls on ONE LogLevelFilterPredicate: setLogLevelForNamespace / clearLogLevels /
       logLevelForNamespace (observation: level index) / predicate(event) (observation: T|F)
+  {"k": "publive", "tab": [[bad_ev, bad_err, act], ...], "os": [i, ...], "events": [n, ...]}
+      EXTENSION: observer i, when it gets an ordinary event, first does act (None | ["add", o] | ["rm", o]: addObserver /
+      removeObserver of observer o on the SAME publisher, i.e. while the event is being dispatched), then raises iff
+      bad_ev; it raises on failure reports iff bad_err.  "os" = the observers registered at the start.
 """
 from __future__ import annotations
 
@@ -51,6 +55,35 @@ def impl(case) -> str:
         pub = LogPublisher()
         for o in obs:
             pub.addObserver(o)
+        for n in case["events"]:
+            pub({"n": n})
+        return " ".join(out)
+    if k == "publive":
+        from twisted.logger import LogPublisher
+        out = []
+
+        class Boom(Exception):
+            pass
+        pub = LogPublisher()
+        obs = []
+
+        def mk(i, bad_ev, bad_err, act):
+            def ob(event):
+                if "n" in event:
+                    out.append(f"{i}:e{event['n']}")
+                    if act is not None:
+                        (pub.addObserver if act[0] == "add" else pub.removeObserver)(obs[act[1]])
+                    if bad_ev:
+                        raise Boom()
+                else:
+                    out.append(f"{i}:x{obs.index(event['observer'])}")
+                    if bad_err:
+                        raise Boom()
+            return ob
+        for i, (be, br, act) in enumerate(case["tab"]):
+            obs.append(mk(i, be, br, act))
+        for i in case["os"]:
+            pub.addObserver(obs[i])
         for n in case["events"]:
             pub({"n": n})
         return " ".join(out)
@@ -146,6 +179,33 @@ def oracle(case, obs):
                 return Failure(case, f"namespace {ns!r} level {lvl}: got {t}, expected level {want_level} pass={want_pass}",
                                "filter-most-specific-prefix" if t[:-1] != str(want_level) else "filter-decision")
         return None
+    if k == "publive":
+        toks = obs.split(" ") if obs else []
+        tab = case["tab"]
+        for t in toks:
+            o, e = t.split(":")
+            if e.startswith("x") and o == e[1:]:
+                return Failure(case, f"failure of observer {o} reported to itself", "pub-reported-to-self")
+        if any(a is not None and a[0] == "rm" for _, _, a in tab):
+            return None       # removal during dispatch: outside the property; behaviour pinned by the model only
+        # observers only add observers: every observer listed when an event is published gets it once, in order
+        cur = list(case["os"])
+        pos = 0
+        for n in case["events"]:
+            want = [f"{i}:e{n}" for i in cur]
+            got = [t for t in toks[pos:] if t.endswith(f":e{n}")]
+            if got[:len(want)] != want:
+                return Failure(case, f"event {n}: listed observers {cur} expected first, once, in order; got {got}",
+                               "publive-listed-observers-once-in-order")
+            if len(set(got)) != len(got):
+                return Failure(case, f"event {n}: an observer got the event twice: {got}", "publive-delivered-twice")
+            while pos < len(toks) and (toks[pos].endswith(f":e{n}") or ":x" in toks[pos]):
+                pos += 1
+            for i in [int(t.split(":")[0]) for t in got]:
+                a = tab[i][2]
+                if a is not None and a[1] not in cur:
+                    cur.append(a[1])
+        return None
     if k == "fhist":
         cfg, default = {}, case["default"]
         toks = obs.split(" ") if obs else []
@@ -210,6 +270,22 @@ def gen(rng, tier):
         n = rng.randrange(5, 8)
         cases.append({"k": "pub", "obs": [[rng.random() < 0.3, rng.random() < 0.2] for _ in range(n)],
                       "events": list(range(rng.randrange(1, 4)))})
+    # extension: observers that add / remove observers while the event is dispatched
+    for _ in range(300 if tier == "quick" else 5000):
+        n = rng.randrange(2, 7)
+        removals = rng.random() < 0.5
+        tab = []
+        for i in range(n):
+            r = rng.random()
+            act = None
+            if r < 0.35:
+                act = ["add", rng.randrange(n)]
+            elif r < 0.6 and removals:
+                act = ["rm", rng.randrange(n)]
+            tab.append([rng.random() < 0.2, rng.random() < 0.15, act])
+        os_ = [i for i in range(n) if rng.random() < 0.6] or [0]
+        rng.shuffle(os_)
+        cases.append({"k": "publive", "tab": tab, "os": os_, "events": list(range(rng.randrange(1, 4)))})
     # filter: shared prefixes a, a.b, a.bc, ...
     for _ in range(300 if tier == "quick" else 6000):
         sets = [[_ns(rng), rng.randrange(5)] for _ in range(rng.randrange(0, 6))]
@@ -251,6 +327,9 @@ def corpus():
          "queries": [[2, "a"], [2, "a.b"], [2, "a.bc"], [2, "a.b.c"], [2, "a.bcd"], [2, "ab"], [None, "a"], [4, ""], [2, "x"]]},
         {"k": "fhist", "default": 2, "ops": [["q", "a.b.c"], ["f", 1, "a.b.c"], ["set", "a.b", 0], ["q", "a.b.c"], ["f", 1, "a.b.c"],
                                               ["set", "a", 4], ["q", "a.b.c"], ["q", "a.c"], ["clear"], ["q", "a.b.c"], ["set", "", 3], ["q", "a.b.c"]]},
+        {"k": "publive", "tab": [[False, False, ["rm", 0]], [False, False, None], [False, False, None]], "os": [0, 1, 2], "events": [7, 8]},
+        {"k": "publive", "tab": [[True, False, ["add", 3]], [False, True, None], [False, False, ["add", 0]], [True, True, ["add", 1]]],
+         "os": [0, 1, 2], "events": [1, 2]},
         {"k": "buf", "size": 0, "events": [1, 2, 3]},
         {"k": "buf", "size": 3, "events": [1, 2, 3, 4, 5]},
     ]
@@ -276,6 +355,12 @@ def to_coq(case):
         qs = [f"({coq_option(None if l is None else str(l), 'nat')}, {coq_list(map(str, _seg_ids(ns)), 'nat')})"
               for l, ns in case["queries"]]
         return f"CFilter {coq_list(entries, '(list nat * nat)%type')} {default} {coq_list(qs, '(option nat * list nat)%type')}"
+    if k == "publive":
+        def lob(x):
+            a = "ONone" if x[2] is None else (f"(OAdd {x[2][1]})" if x[2][0] == "add" else f"(ORemove {x[2][1]})")
+            return f"mkL {coq_bool(x[0])} {coq_bool(x[1])} {a}"
+        return (f"CPubLive {coq_list(map(lob, case['tab']), 'lobs')} {coq_list(map(str, case['os']), 'nat')} "
+                f"{coq_list(map(str, case['events']), 'nat')}")
     if k == "fhist":
         def fop(o):
             if o[0] == "set":
@@ -291,6 +376,15 @@ def to_coq(case):
 
 
 def shrink(case):
+    if case["k"] == "publive":
+        for i in range(len(case["events"])):
+            yield {**case, "events": case["events"][:i] + case["events"][i + 1:]}
+        for i in range(len(case["os"])):
+            yield {**case, "os": case["os"][:i] + case["os"][i + 1:]}
+        for i, x in enumerate(case["tab"]):
+            if x[2] is not None or x[0] or x[1]:
+                yield {**case, "tab": case["tab"][:i] + [[False, False, None]] + case["tab"][i + 1:]}
+        return
     for key in ("events", "obs", "sets", "queries", "ops"):
         if key in case:
             l = case[key]
@@ -304,15 +398,16 @@ SPEC = Spec(
     coq_header="From C57 Require Import Model Run.",
     coq_fn="run_show",
     to_coq=to_coq,
-    nontrivial=lambda c, o: (c["k"] == "pub" and ":x" in o) or (c["k"] == "filter" and bool(c["sets"])) or (c["k"] == "fhist" and any(o[0] == "set" for o in c["ops"])) or (c["k"] == "buf" and len(c["events"]) > (c["size"] or 0)),
+    nontrivial=lambda c, o: (c["k"] == "pub" and ":x" in o) or (c["k"] == "publive" and any(x[2] is not None for x in c["tab"])) or (c["k"] == "filter" and bool(c["sets"])) or (c["k"] == "fhist" and any(o[0] == "set" for o in c["ops"])) or (c["k"] == "buf" and len(c["events"]) > (c["size"] or 0)),
     histogram=lambda c, o: c["k"],
     rule="publisher: every raise pattern (ok / raises on events / raises on failure reports / both) for 0-4 observers "
-         "(thorough 0-5; largest size sampled) plus random sets of 5-7 observers, 1-3 events; filter: random configurations of "
+         "(thorough 0-5; largest size sampled) plus random sets of 5-7 observers, 1-3 events; extension: 2-6 observers that add / remove observers of the publisher while an event is dispatched (half of the cases without removals), some raising, 1-3 events; filter: random configurations of "
          "0-5 namespaces drawn from segments a,b,bc,c,ab,x (shared string prefixes a.b / a.bc), default set through the empty "
          "namespace, queries with and without level, on configured names and their extensions; filter histories: 4-29 interleaved set / clear / query / filter calls on ONE predicate over a family of namespaces sharing dotted prefixes (each queried repeatedly before and after changes to its ancestors, itself and the default); buffer: N in {None,0,1,2,3,5,8} "
          "x stream lengths 0-11; non-trivial = a failure report delivered / a configured filter / an overflowing buffer",
     trusted=["hand-written model coq/C57/Model.v (tied by this correspondence run only)",
-             "observers that add/remove observers during a dispatch are not modelled (outside the property's quantifier)",
+             "observers that add/remove observers during a dispatch (extension, outside the property's quantifier) are modelled "
+             "with a live list iterator; with removals the behaviour is pinned by the correspondence only (no oracle claim)",
              "namespaces are modelled as lists of segments; the string-level prefix confusion (a.b vs a.bc) is checked by the "
              "oracle on the implementation only"],
     assumptions=["str.split('.') / '.'.join are inverse on the generated namespaces (no empty segments)",
